@@ -34,6 +34,7 @@ DESCS = (
     "With `code` and - dashes_and_underscores",
     "First line\nsecond line",
     "Para one\n\nPara two, after a blank line",
+    "Kept blank\n \nabove: a line holding one space",
 )
 
 
@@ -100,6 +101,9 @@ def gen_sdl(seed, idx):
                "INPUT_FIELD_DEFINITION | INTERFACE | UNION | ENUM | SCALAR | "
                "INPUT_OBJECT | SCHEMA" % _desc(r))
     out.append("directive @flag on FIELD_DEFINITION | OBJECT")
+    if r.random() < 0.5:
+        # legal: directives and types live in different namespaces
+        out.append("directive @Date(fmt: String) on FIELD_DEFINITION")
     if renamed or crossed or r.random() < 0.2:
         sd = "schema%s { query: %s%s }" % (
             _dirs(r, "SCHEMA"), qname,
@@ -201,7 +205,7 @@ def code_schema(idx):
             EnumValue("LIGHT", light, deprecation_reason="too bright"),
             ("MID", (3, "t")),
         ],
-        description="Enum with internal values",
+        description="Enum with internal values\n \n(blank line above)",
     )
     anyt = ScalarType("Any", serialize=lambda v: v, parse=lambda v: v)
     stamp = ScalarType(
